@@ -39,10 +39,10 @@ theorem takeWhile_ne_of_find {α} [DecidableEq α] (p : α → Bool) (xs : List 
       have hpx : p x = false := by
         cases hp : p x with
         | false => rfl
-        | true => simp [List.find?_cons, hp] at h; exact absurd h hx
+        | true => simp [hp] at h; exact absurd h hx
       rcases hq with rfl | hq
       · exact hpx
-      · simp [List.find?_cons, hpx] at h
+      · simp [hpx] at h
         exact ih h q hq
 
 /-! ### `firstFile`, `resolveLoc`, `resolveLocs`: result and calls -/
@@ -52,7 +52,7 @@ theorem firstFile_fst (fs : Fs) (ps : List Path) : (firstFile fs ps).1 = ps.find
   | nil => rfl
   | cons p ps ih =>
     unfold firstFile
-    cases h : fs.isFile p <;> simp [List.find?_cons, h, ih]
+    cases h : fs.isFile p <;> simp [h, ih]
 
 theorem firstFile_calls (fs : Fs) (ps : List Path) :
     ∀ c ∈ (firstFile fs ps).2, ∃ p ∈ ps, c = .isFile p := by
@@ -86,7 +86,7 @@ theorem resolveLoc_fst (fs : Fs) (l : Loc) :
   | none =>
     rcases hi : l.index with _ | ⟨d, gs⟩
     · simp [h]
-    · cases hd : fs.isDir d <;> simp [h, hd, firstFile_fst]
+    · cases hd : fs.isDir d <;> simp [h, hd]
 
 theorem resolveLocs_fst (fs : Fs) (ls : List Loc) :
     (resolveLocs fs ls).1 = (ls.flatMap (Loc.eligible fs)).find? fs.isFile := by
@@ -724,25 +724,47 @@ example : docResolve (fsOf [[['a', '.', 's', 'c', 's', 's']], [['_', 'a', '.', '
 example : docResolve (fsOf [[['a', '.', 's', 'c', 's', 's']], [['_', 'a', '.', 'c', 's', 's']]] [])
     [['m']] [['a']] [] true = .found [['a', '.', 's', 'c', 's', 's']] := by decide
 
-/-! ### P̂ holds on the specified model's own output -/
+/-! ### P̂ holds on the model's own output -/
 
-theorem C13_checkLoad_spec (fs : Fs) (importer url : Path) (lps : List Path) (fi : Bool) :
-    checkLoad fs importer url lps fi (resolve .spec fs importer url lps fi)
-      (load .spec fs importer url lps fi).2 = true := by
+theorem checkLoad_model (af : AsFound) (fs : Fs) (importer url : Path) (lps : List Path) (fi : Bool) :
+    checkLoad af fs importer url lps fi (resolve af fs importer url lps fi)
+      (load af fs importer url lps fi).2 = true := by
   rw [C13_confinement_reads]
   unfold checkLoad
-  have hconf := C13_confinement .spec fs importer url lps fi
+  have hconf := C13_confinement af fs importer url lps fi
   simp only [decide_true, Bool.true_and, Bool.and_eq_true, List.all_eq_true, decide_eq_true_eq]
   constructor
   · intro c hc
     simp only [List.mem_append, List.mem_map] at hc
     rcases hc with ⟨q, hq, rfl⟩ | hc
     · simpa using hconf q hq
-    · cases hr : resolve .spec fs importer url lps fi with
+    · cases hr : resolve af fs importer url lps fi with
       | none => simp [hr] at hc
       | some p => simp [hr] at hc; subst hc; simp
-  · cases hr : resolve .spec fs importer url lps fi <;>
+  · cases hr : resolve af fs importer url lps fi <;>
       simp [List.filter_append, List.filter_map, Function.comp_def]
+
+/-- The predicate the check evaluates on grass's own observation (`checkLoad .spec`) holds of
+    the specified model's outcome and call sequence, for every file system and input. -/
+theorem C13_checkLoad_spec (fs : Fs) (importer url : Path) (lps : List Path) (fi : Bool) :
+    checkLoad .spec fs importer url lps fi (resolve .spec fs importer url lps fi)
+      (load .spec fs importer url lps fi).2 = true :=
+  checkLoad_model .spec fs importer url lps fi
+
+/-- Conversely `checkLoad .spec` pins the outcome: an observation that passes loaded exactly
+    what the specified search resolves to and read nothing else. -/
+theorem C13_checkLoad_sound (fs : Fs) (importer url : Path) (lps : List Path) (fi : Bool)
+    (res : Option Path) (calls : List Call)
+    (h : checkLoad .spec fs importer url lps fi res calls = true) :
+    res = resolve .spec fs importer url lps fi ∧
+    (∀ p, Call.probe p ∈ calls → p ∈ candidates .spec importer url lps fi) ∧
+    (∀ p, Call.read p ∈ calls → res = some p) := by
+  unfold checkLoad at h
+  simp only [Bool.and_eq_true, decide_eq_true_eq, List.all_eq_true] at h
+  obtain ⟨⟨h1, h2⟩, _⟩ := h
+  refine ⟨h1, ?_, ?_⟩
+  · intro p hp; simpa using h2 _ hp
+  · intro p hp; simpa using h2 _ hp
 
 /-! ### syntax from the extension -/
 
